@@ -397,8 +397,17 @@ func runChild(r *vrt.R) {
 			want[n] = true
 		}
 	}
+	skipTypes := map[string]bool{}
+	for _, s := range strings.Split(os.Getenv("C05_SKIPTYPES"), ",") {
+		skipTypes[s] = true
+	}
 	for i, cell := range cells {
 		if !want[i] {
+			continue
+		}
+		if skipTypes[pktgen.TypeName(cell.Type)] {
+			fmt.Fprintf(c.out, "SKIP %d\n", i)
+			c.out.Flush()
 			continue
 		}
 		first := i == 0 || cells[i-1].State != cell.State || cells[i-1].Direction != cell.Direction || cells[i-1].Protocol != cell.Protocol
@@ -419,6 +428,7 @@ type childRun struct {
 	hung     bool
 	stderr   string
 	done     map[int]bool
+	skipped  []int
 }
 
 func spawn(env []string, stall time.Duration, hard time.Time) *childRun {
@@ -480,6 +490,10 @@ loop:
 					cr.results = append(cr.results, res)
 					cr.done[res.Cell] = true
 				}
+			case strings.HasPrefix(ln, "SKIP "):
+				n, _ := strconv.Atoi(ln[5:])
+				cr.done[n] = true
+				cr.skipped = append(cr.skipped, n)
 			case ln == "END":
 				cr.ended = true
 			}
@@ -538,9 +552,14 @@ func firstLines(s string, n int) string {
 }
 
 type parent struct {
-	r     *vrt.R
-	cells []pktgen.Cell
-	hard  time.Time
+	r         *vrt.R
+	cells     []pktgen.Cell
+	hard      time.Time
+	skipTypes []string // types with a recorded hang/crash: their remaining cells are not explored
+}
+
+func (p *parent) env(extra ...string) []string {
+	return append(extra, "C05_SKIPTYPES="+strings.Join(p.skipTypes, ","))
 }
 
 func (p *parent) merge(res cellResult) {
@@ -575,8 +594,9 @@ func (p *parent) investigate(idx int) {
 	cell := p.cells[idx]
 	tn := pktgen.TypeName(cell.Type)
 	from := 1
-	for attempt := 0; attempt < 4; attempt++ {
-		cr := spawn([]string{"C05_CELLS=" + strconv.Itoa(idx), "C05_TRACE=1", "C05_FROM=" + strconv.Itoa(from)}, 15*time.Second, p.hard)
+	defer func() { p.skipTypes = append(p.skipTypes, tn) }()
+	for attempt := 0; attempt < 3; attempt++ {
+		cr := spawn([]string{"C05_CELLS=" + strconv.Itoa(idx), "C05_TRACE=1", "C05_FROM=" + strconv.Itoa(from)}, 10*time.Second, p.hard)
 		if cr.done[idx] {
 			for _, res := range cr.results {
 				p.merge(res)
@@ -591,12 +611,13 @@ func (p *parent) investigate(idx int) {
 		rpd := rp{Cell: cell.String(), Payload: payload}
 		if cr.hung {
 			// confirm: the same case alone must hang again
-			again := spawn([]string{"C05_REPLAY=" + mustJSON(rpd)}, 15*time.Second, p.hard)
+			again := spawn([]string{"C05_REPLAY=" + mustJSON(rpd)}, 10*time.Second, p.hard)
 			if again.hung {
-				r.Violation(tn+"/hang", fmt.Sprintf("%s: decoding does not finish within 15 s (reproduced twice)\n  payload (id+data): %s", cell, payload), rpd)
-			} else {
-				r.NotExhaustive(fmt.Sprintf("cell %s case %d stalled once for 15 s but not when repeated (machine load?)", cell, cr.lastCase))
+				r.Violation(tn+"/hang", fmt.Sprintf("%s: decoding this payload does not finish within 10 s of CPU (reproduced twice; every other case takes microseconds)\n  payload (id+data): %s", cell, payload), rpd)
+				r.NotExhaustive(fmt.Sprintf("cells of %s after the hanging payload are not explored", tn))
+				return
 			}
+			r.NotExhaustive(fmt.Sprintf("cell %s case %d stalled once for 10 s but not when repeated (machine load?)", cell, cr.lastCase))
 		} else {
 			kind := crashKind(cr.stderr)
 			key := tn + "/process-crash:" + kind
@@ -604,7 +625,7 @@ func (p *parent) investigate(idx int) {
 		}
 		from = cr.lastCase + 1
 	}
-	r.NotExhaustive(fmt.Sprintf("cell %s: more than 4 crashing payloads, rest of the cell not explored", cell))
+	r.NotExhaustive(fmt.Sprintf("%s: 3 crashing payloads in cell %s, remaining cells of this type not explored", tn, cell))
 }
 
 func mustJSON(v any) string { b, _ := json.Marshal(v); return string(b) }
@@ -617,7 +638,7 @@ func runParent(r *vrt.R) {
 	}
 	var x rp
 	if r.ReplayInto(&x) {
-		cr := spawn([]string{"C05_REPLAY=" + mustJSON(x)}, 15*time.Second, p.hard)
+		cr := spawn([]string{"C05_REPLAY=" + mustJSON(x)}, 10*time.Second, p.hard)
 		cell, _ := pktgen.FindCell(x.Cell)
 		tn := pktgen.TypeName(cell.Type)
 		switch {
@@ -628,7 +649,7 @@ func runParent(r *vrt.R) {
 				}
 			}
 		case cr.hung:
-			r.Violation(tn+"/hang", "replay: decoding does not finish within 15 s", x)
+			r.Violation(tn+"/hang", "replay: decoding does not finish within 10 s", x)
 		default:
 			r.Violation(tn+"/process-crash:"+crashKind(cr.stderr), "replay: the process died while decoding\n"+firstLines(cr.stderr, 12), x)
 		}
@@ -649,9 +670,12 @@ func runParent(r *vrt.R) {
 		for _, i := range todo {
 			sb.WriteString(strconv.Itoa(i) + ",")
 		}
-		cr := spawn([]string{"C05_CELLS=" + sb.String()}, 30*time.Second, p.hard)
+		cr := spawn(p.env("C05_CELLS="+sb.String()), 20*time.Second, p.hard)
 		for _, res := range cr.results {
 			p.merge(res)
+		}
+		for range cr.skipped {
+			r.AddExtra("cells_skipped_after_crash_of_same_type", 1)
 		}
 		var rest []int
 		for _, i := range todo {
